@@ -15,6 +15,7 @@ import (
 	"github.com/AdguardTeam/golibs/cache"
 
 	"verif/engine/runlib"
+	"verif/engine/statefp"
 )
 
 type op struct {
@@ -306,6 +307,14 @@ func runHistory(cf conf, ops []op) (res result) {
 		res.finalKey = stateKey(strict.m)
 	} else {
 		res.finalKey = stateKey(loose.m)
+	}
+
+	// The implementation's own state is part of the search key, so that a
+	// history whose hidden state (list order, sizes, stale fields) differs
+	// from the one that reached this model state first is explored further.
+	// The counters are unbounded and the model key keeps their zero-ness.
+	if pv, _ := runlib.Try(func() { res.finalKey += "|" + statefp.Of(real.c, "hit", "miss", "lock") }); pv != nil {
+		res.finalKey += "|<fingerprint panicked>"
 	}
 
 	return res
